@@ -18,7 +18,7 @@ T = {
 'C06-A': ('C06', "recovery: `next_block_start <= MAX_FILE_SIZE` -> `<` (multi-unit block ending exactly at the file end is mis-sized)", "entry larger than one block whose block lands on the last units of a file, clean restart", [('C06','quick','c06.*')], ''),
 'C06-B': ('C06', "now_millis_str_after ignores the directory floor when the clock is past the last name generated in this process", "two restarts with the wall clock set back in between, append in the second run", [('C06','quick','c06.*')], ''),
 'C07-A': ('C07', "Writer::write computes next_block_start before switching blocks (stale end offset in the first header of the new block)", "single append that switches blocks with an entry > 1 block, or a switch across a file rollover; restart", [('C07','quick','c07.*'),('C06','quick','c06.*')], ''),
-'C07-B': ('C07', "recovery scan guard weakened to `in_block_off >= block_limit`", "mmap backend, block at the end of its file with 1..255 bytes free, restart (panic in recovery)", [('C07','quick','c07.recovery_died'),('C06','quick','c06.*')], ''),
+# C07-B (recovery scan guard weakened; made the mmap backend read a header past the end of the mapping and panic) was dropped for the same reason as C11-B: after 5105f63/0b669dd that read yields zeros and recovery simply stops there
 'C08-A': ('C08', "io_uring ring capped at 1024 slots and flushed when full: a batch of >1024 entries is handed to the kernel in two steps", "FD backend, batch of 1025-2000 entries, process killed between the two submissions", [('C08','quick','c08.partial_batch (act=crash)')], ''),
 'C08-B': ('C08', "batches of 2-7 entries bypass io_uring on the FD backend (one pwrite per entry)", "FD backend, batch of 2-7 entries, process killed between two of the writes", [('C08','quick','c08.partial_batch (backend=fd, act=crash)')], ''),
 'C09-A': ('C09', "read_next steps to the next block as soon as it returns the last entry of a sealed block; the persisted cursor is (new block index, old block's end offset)", "topic > 1 block, read_next, last persisted read before the crash returned the last entry of a sealed block", [('C09','quick','c09.*'),('C06','quick','c06.*')], ''),
